@@ -6,13 +6,13 @@ import Univers.Scheme.Openssl
 
 namespace Univers.Driver
 
-def osslBit (b : Bool) : String := if b then "1" else "0"
+private def osslBit (b : Bool) : String := if b then "1" else "0"
 
-def osslBits {R : Type} (o : VOps R) (a b : R) : String :=
+private def osslBits {R : Type} (o : VOps R) (a b : R) : String :=
   osslBit (o.eq a b) ++ osslBit (o.ne a b) ++ osslBit (o.lt a b) ++ osslBit (o.le a b) ++
     osslBit (o.gt a b) ++ osslBit (o.ge a b)
 
-def osslErr : Openssl.PErr → String
+private def osslErr : Openssl.PErr → String
   | .invalid => "invalid"
   | .other n => "raise:" ++ n
 
